@@ -1147,7 +1147,9 @@ func init() {
 	reg(vr+"JTrailing", func(ex *Exec, fn *ssa.Function, a []Value) Value {
 		return wrap(&JNode{kind: JTrail, elems: []*JNode{unwrap(a[0])}})
 	})
-	reg(vr+"JBytesVal", func(ex *Exec, fn *ssa.Function, a []Value) Value { return wrap(&JNode{kind: JBytes, bytes: a[0].(Slice)}) })
+	reg(vr+"JBytesVal", func(ex *Exec, fn *ssa.Function, a []Value) Value {
+		return wrap(&JNode{kind: JBytes, bytes: a[0].(Slice)})
+	})
 	reg(vr+"JSONBytes", func(ex *Exec, fn *ssa.Function, a []Value) Value {
 		n := unwrap(a[0])
 		if n.kind == JBad || n.kind == JTrail {
